@@ -824,6 +824,16 @@ pub fn exc_menu(os: OsK) -> Vec<Rec> {
                     }
                 }
             }
+            // the 12-bit facility field: every single-bit neighbour of two known facilities (first and last of
+            // the table), under three severity nibbles — a facility is known or unknown as a whole
+            let facs = t.entries("WinErrorFacilityWindows");
+            for f in [facs.first().expect("procgen: facility").1 as u32, facs.last().expect("procgen: facility").1 as u32] {
+                for bit in 0..12 {
+                    for sev in [0x8000_0000u32, 0xC000_0000, 0xE000_0000] {
+                        v.push((sev | (((f ^ (1 << bit)) & 0xfff) << 16) | (fac & 0xffff), 0, 0, infos[0]));
+                    }
+                }
+            }
         }
         OsK::Mac | OsK::Ios => {
             let mut codes: Vec<u32> = (0..=14).collect();
